@@ -57,16 +57,82 @@ def memstr (frags : List Frag) (set : List Byte) : Option Nat :=
 def memrstr (frags : List Frag) (set : List Byte) : Option Nat :=
   if set.isEmpty then some 0 else memrfcn frags (fun c => set.contains c)
 
-/-- `mpt_memtok` main loop: the scanner state (`match`, `prev`, "inside comment") survives the
-    switch to the next fragment; empty fragments are stepped over -/
-def tokGo (frags : List Frag) (a : TokArgs) : TokSt → List Frag → Nat → Option Nat
-  | _, [], _ => none
-  | s, f :: fs, i =>
-    match Flat.scan (tokStep a) s f with
-    | .found pos => some (pos + sumLen (frags.take i))
-    | .more s' => tokGo frags a s' fs (i + 1)
+/-- outcome of the byte loop of `mpt_memtok` inside one data part -/
+inductive TokOut where
+  | found (pos : Nat)                             -- `break`: position inside the part
+  | more (q : Option Byte) (prev : Byte)          -- part exhausted in the main loop (`match`, `prev` carried on)
+  | comment (q : Option Byte) (prev : Byte)       -- part exhausted inside the comment skip
+  deriving Repr, DecidableEq
 
-def memtok (frags : List Frag) (a : TokArgs) : Option Nat := tokGo frags a {} frags 0
+def TokOut.shift : TokOut → TokOut
+  | .found p => .found (p + 1)
+  | x => x
+
+/-- the bytes of ONE part (memtok.c, body of `while (1)`): `q` = `match` (open quote), `prev`, and
+    `inC` = inside `while (++pos < len && *(++curr) != '\n')` of the comment skip (entered only with `tok == NULL`).
+    After the line end the code falls through to the "visible character" test: `'\n'` is white space, `prev = '\n'`. -/
+def tokBytes (a : TokArgs) : Option Byte → Byte → Bool → List Byte → TokOut
+  | q, prev, inC, [] => if inC then .comment q prev else .more q prev
+  | q, prev, inC, c :: cs =>
+    if inC then
+      if c == 10 then (tokBytes a q c false cs).shift else (tokBytes a q prev true cs).shift
+    else if !a.esc.isEmpty && q.isSome then
+      (tokBytes a (if q == some c && prev != 92 then none else q) c false cs).shift
+    else if !a.esc.isEmpty && a.esc.contains c then (tokBytes a (some c) prev false cs).shift
+    else if a.com.contains c && isSpace prev then
+      match a.tok with
+      | some _ => .found 0
+      | none => (tokBytes a q prev true cs).shift
+    else
+      match a.tok with
+      | some t => if t.contains c then .found 0 else (tokBytes a q c false cs).shift
+      | none => if !isSpace c then .found 0 else (tokBytes a q c false cs).shift
+
+/-- `mpt_memtok` over the parts.  There are TWO places where the code moves on to the next part:
+    * `inC = false`: the top of the main loop (`if (++pos >= len) { … curr = data[i].iov_base; if (!(len = …)) continue; }`);
+    * `inC = true`: inside the comment skip (`do { curr = data[i].iov_base; len = data[i++].iov_len; } while (!len);
+      pos = 0; if (*curr == '\n') break;` — the first byte of the new part is tested on its own, the inner while goes
+      on behind it).
+    A hit at `pos` in part `i` is reported as `pos + Σ_{k<i} len k`. -/
+def tokGo (frags : List Frag) (a : TokArgs) : Bool → Option Byte → Byte → List Frag → Nat → Option Nat
+  | _, _, _, [], _ => none
+  | false, q, prev, f :: fs, i =>
+    match tokBytes a q prev false f with
+    | .found pos => some (pos + sumLen (frags.take i))
+    | .more q' p' => tokGo frags a false q' p' fs (i + 1)
+    | .comment q' p' => tokGo frags a true q' p' fs (i + 1)
+  | true, q, prev, [] :: fs, i => tokGo frags a true q prev fs (i + 1)
+  | true, q, prev, (c :: cs) :: fs, i =>
+    match (if c == 10 then tokBytes a q c false cs else tokBytes a q prev true cs) with
+    | .found pos => some (pos + 1 + sumLen (frags.take i))
+    | .more q' p' => tokGo frags a false q' p' fs (i + 1)
+    | .comment q' p' => tokGo frags a true q' p' fs (i + 1)
+
+def memtok (frags : List Frag) (a : TokArgs) : Option Nat := tokGo frags a false none 32 frags 0
+
+/-- `nextSpace` of message_argv.c (fix 3186d50), bytes of one part: white space outside quotes; its own loop,
+    not `mpt_memtok` -/
+def nsBytes : Option Byte → Byte → List Byte → TokOut
+  | q, prev, [] => .more q prev
+  | q, prev, c :: cs =>
+    match q with
+    | some m => (nsBytes (if some m == some c && prev != 92 then none else some m) c cs).shift    -- c == match && prev != '\\'
+    | none =>
+      if [39, 34].contains c then (nsBytes (some c) prev cs).shift                   -- c == '\'' || c == '"'
+      else if [9, 32, 10, 13, 11].contains c then .found 0           -- memchr("\t \n\r\v", c, 5)
+      else (nsBytes none c cs).shift
+
+/-- `nextSpace(curr, cont, clen)`: `pos` grows by the length of every part left behind (`pos += len; curr = cont++`) -/
+def nsGo : Option Byte → Byte → Frag → List Frag → Nat → Option Nat
+  | q, prev, curr, cont, pos =>
+    match nsBytes q prev curr with
+    | .found i => some (pos + i)
+    | .more q' p' =>
+      match cont with
+      | [] => none
+      | f :: fs => nsGo q' p' f fs (pos + curr.length)
+    | .comment _ _ => none
+def nextSpace (curr : Frag) (cont : List Frag) : Option Nat := nsGo none 32 curr cont 0
 
 /-- result of `mpt_memcpy`: return value and the target fragments afterwards -/
 structure CpyRes where
@@ -175,10 +241,8 @@ def trim (m : Msg) : Res Msg :=
       | none => .oob
     | none => .ok m
 
-/-- `nextSpace` of message_argv.c (fix: quote scanner keeps its state): white space outside quotes, searched over
-    the current fragment and the continuation with ONE scanner state — the character rules are those
-    of `mpt_memtok(…, "\t \n\r\v", NULL, "'\"")` -/
-def spaceEnd (m : Msg) : Option Nat := Iov.memtok (m.base :: m.cont) wsTok
+/-- the search for white space outside quotes in `mpt_message_argv` -/
+def spaceEnd (m : Msg) : Option Nat := Iov.nextSpace m.base m.cont
 
 /-- `mpt_message_argv(msg, sep)`: the cursor afterwards and the return value -/
 def argv (m : Msg) (sep : Byte) : Msg × Res Nat :=
